@@ -13,7 +13,7 @@
    Output:
      DIVERGE <case> <op#> <what> model=[..] impl=[..]      model and implementation disagree (first per case)
      ORACLE <case> <op#> <verdict> | <op text>             the implementation's observations break the spec
-     CASE <case> <nops> <kinds> <nontrivial 0|1> <hash>    statistics
+     CASE <case> <nops> <kinds> <nontrivial 0|1> <hash> <same-instant orders explored 0|1>    statistics
      DONE <cases>
    Usage: runner [pinned|current|d,n,g,t]   (variant; default current) *)
 open Engine_model
@@ -264,6 +264,7 @@ let () =
           else if int_of_n (now st) <> o.at then Some ("clock", string_of_int (int_of_n (now st)), string_of_int o.at)
           else None in
         let cands = List.concat_map outcomes !states in
+        if List.length cands > List.length !states then Hashtbl.replace kinds "~orders" ();
         let good = List.filter (fun c -> differs c = None) cands in
         if good = [] then begin
           diverged := true;
@@ -350,9 +351,10 @@ let () =
       (match spec_final !sp with
        | Some vd -> Printf.printf "ORACLE %s %d %s | end-of-history\n" cid (List.length ops) (string_of_verdict vd)
        | None -> ());
-    Hashtbl.remove kinds "~nondet";
+    let nondet = Hashtbl.mem kinds "~nondet" || Hashtbl.mem kinds "~orders" in
+    Hashtbl.remove kinds "~nondet"; Hashtbl.remove kinds "~orders";
     let nk = Hashtbl.length kinds in
     let body = String.concat "\n" (List.map (fun o -> o.text) ops) in
-    Printf.printf "CASE %s %d %d %d %s\n" cid (List.length ops) nk (if nk >= 3 && !any_cb then 1 else 0)
-      (Digest.to_hex (Digest.string body))) cases;
+    Printf.printf "CASE %s %d %d %d %s %d\n" cid (List.length ops) nk (if nk >= 3 && !any_cb then 1 else 0)
+      (Digest.to_hex (Digest.string body)) (if nondet then 1 else 0)) cases;
   Printf.printf "DONE %d\n" !ncase
